@@ -26,7 +26,7 @@ PHASE_OF = {'provides': 'request', 'endpoint_provides': 'endpoint', 'render_prov
 
 
 def sources():
-    s = ['url', 'res:L0', 'res:R', 'res:L1']
+    s = ['url', 'urlprefix', 'res:L0', 'res:R', 'res:L1']
     s += ['builtin:' + n for n in I.RESERVED]
     s += ['mw:%s:%s' % (w, pl) for w in WHERE for pl in LISTS]
     return s
@@ -43,7 +43,7 @@ def fault_matrix():
             continue
         if a == b and ka != 'mw':
             continue
-        if ka == 'url' and kb == 'url':
+        if ka in ('url', 'urlprefix') and kb in ('url', 'urlprefix'):
             continue        # duplicate binding is C05's InvalidPattern
         out.append({'f': 'conflict', 'a': a, 'b': b})
     for w in WHERE:
@@ -125,6 +125,10 @@ def _offer(cfg, src, name, slot, bare):
     if kind == 'url':
         cfg['route'].setdefault('url', [])
         cfg['route']['url'] = list(cfg['route']['url']) + [name]
+    elif kind == 'urlprefix':
+        # a URL binding carried by the prefix under which an application is embedded
+        lv = _container(cfg, 'L1')
+        lv['prefix'] = (lv.get('prefix') or '/s').rstrip('/') + '/<%s>' % name
     elif kind == 'res':
         c = _container(cfg, src.split(':')[1])
         c['res'] = list(c.get('res') or []) + [name]
